@@ -50,6 +50,12 @@ def obligations(tier):
                       bounds="years 1000..9998 x day of year"))
     for combo in REJECTED:
         obs.append(Ob(f"L3.witness_non_monotone[{','.join(combo)}]", "c14.py", "fields_monotone", {"combo": combo}, expect="refute", timeout=t))
+    for combo in COHERENT:
+        if combo[0] == "year_g" and tier == "quick":
+            continue   # the ISO pair needs more than the quick budget for two arbitrary dates; neighbours are covered by L1
+        obs.append(Ob(f"L1b.fields_monotone_any[{','.join(combo)}]", "c14.py", "fields_monotone_any", {"combo": combo}, timeout=t,
+                      bounds="any two dates 1000..9999"))
+    obs.append(Ob("L4.cal_gt_is_date_order", "c14.py", "cal_gt_is_date_order", {}, timeout=t, bounds="any two dates 1000..9999"))
     obs.append(Ob("L1.fields_in_domain", "c14.py", "fields_in_domain", {}, timeout=t))
     obs.append(Ob("L3.week_guard", "c14.py", "week_guard", {}, timeout=t))
     for pat in (L2_QUICK if tier == "quick" else L2_QUICK + L2_MORE):
